@@ -71,7 +71,7 @@ pub fn run(ctx: &Arc<Ctx>) {
     refmodels::selftest::run(&["sm3", "sm2"]).unwrap_or_else(|e| ctx.machinery_error(format!("reference self-test failed: {}", e)));
     let n = sm2::params().n.clone();
     let p = sm2::params().p.clone();
-    ctx.set_rule("for each base signature (quick 12, thorough 60: keys x nonces x IDs x messages from the C03 alphabets, made by the reference signer): all 512 single-bit flips of r||s; r,s substituted by {0,1,n-1,n,n+1,2^256-1}, s=n-r, swapped; (r+delta, s') completed with the private key so that the verification point is unchanged, delta in {+-1, +-(p-n), +-(2^256-n), +-(2^256-p)}; the public key held as a Jacobian key object (Z in {2, p-1, seeded}); message bit flipped / byte appended / truncated; ID changed (also to normalisation-equivalent spellings: trailing / leading white space, line end, NUL, case; and to IDs longer than 8191 bytes sharing the signer's prefix); key replaced by another key and by -P; every signature length 0..=130 as prefix/extension and constant fills; plus the product RxS of a 12-element boundary alphabet; pre-searched messages whose digest e is >= n; pre-searched signatures with r or s below 2^224 and their r+n / s+n aliases. Oracle: the reference verifier (and 'exactly 64 bytes'); library must return Err whenever it rejects — never Ok, never a panic — and Ok when it accepts.");
+    ctx.set_rule("for each base signature (quick 12, thorough 60: keys x nonces x IDs x messages from the C03 alphabets, made by the reference signer): all 512 single-bit flips of r||s; r,s substituted by {0,1,n-1,n,n+1,2^256-1}, s=n-r, swapped; (r+delta, s') completed with the private key so that the verification point is unchanged, delta in {+-1, +-(p-n), +-(2^256-n), +-(2^256-p)}; the public key held as a Jacobian key object (Z in {2, p-1, seeded}); message bit flipped / byte appended / truncated (also on messages of 2^16+5 bytes and 4 MiB+17 bytes, changed at the end, in the middle and after the first block); ID changed (also to normalisation-equivalent spellings: trailing / leading white space, line end, NUL, case; and to IDs longer than 8191 bytes sharing the signer's prefix); key replaced by another key and by -P; every signature length 0..=130 as prefix/extension and constant fills; plus the product RxS of a 12-element boundary alphabet; pre-searched messages whose digest e is >= n; pre-searched signatures with r or s below 2^224 and their r+n / s+n aliases. Oracle: the reference verifier (and 'exactly 64 bytes'); library must return Err whenever it rejects — never Ok, never a panic — and Ok when it accepts.");
     let ds = scalar_alphabet(&n, ctx.seed, "c04d", 2);
     let ks = scalar_alphabet(&n, ctx.seed, "c04k", 1);
     let nbase = ctx.tier.pick(12usize, 160);
@@ -267,6 +267,25 @@ pub fn run(ctx: &Arc<Ctx>) {
         }
         if !(r < two224 || s < two224) {
             ctx.machinery_error(format!("corpus entry {} has no small component", kind));
+        }
+    }
+    // long messages: 2^16 + 5 bytes and 4 MiB + 17 bytes (ZA || M pads to more than 2^16 blocks): a change in the last
+    // byte, in the middle and right after the first block must be refused
+    for (mlen, dk) in [(65541usize, 1usize), ((4 << 20) + 17, 2)] {
+        let d = &ds[dk].1;
+        let pk = sm2::g_mul(d);
+        let msg = content("mod251", mlen, ctx.seed);
+        let e = sm2::digest_e(sm2::DEFAULT_ID, &pk, &msg);
+        if let Some((r, s)) = sm2::sign_with_k(d, &e, &ks[3].1) {
+            let pkh = hex::encode(sm2::encode_point(&pk, false));
+            let mk = |m: &[u8], label: &str| Case { pk: pkh.clone(), id: None, msg: hex::encode(m), sig: sig_bytes(&r, &s), label: label.to_string(), lambda: None };
+            cases.push(mk(&msg, "valid"));
+            for pos in [mlen - 1, mlen / 2, 40usize] {
+                let mut m2 = msg.clone();
+                m2[pos] ^= 0x01;
+                cases.push(mk(&m2, "long-msg-byte-changed"));
+            }
+            cases.push(mk(&msg[..mlen - 1], "long-msg-truncated"));
         }
     }
     ctx.cov("small_component_signatures", serde_json::json!(small.len()));
